@@ -791,6 +791,14 @@ func genBSP(r *vgen.Rand) (sc Scenario) {
 	if r.Chance(2, 5) {
 		sc.IntOpts["batch"] = vgen.Pick(r, optInts)
 	}
+	if r.Chance(1, 3) { // the export timeout on its own (does not disturb how batches are cut)
+		if r.Bool() {
+			setIf(sc.Env, "OTEL_BSP_EXPORT_TIMEOUT", vgen.Pick(r, bspExportVals))
+		}
+		if r.Bool() {
+			sc.IntOpts["export"] = vgen.Pick(r, exportOptVals)
+		}
+	}
 	if r.Chance(1, 6) {
 		setIf(sc.Env, "OTEL_BSP_SCHEDULE_DELAY", vgen.Pick(r, bspDelayVals))
 		setIf(sc.Env, "OTEL_BSP_EXPORT_TIMEOUT", vgen.Pick(r, bspExportVals))
@@ -798,10 +806,22 @@ func genBSP(r *vgen.Rand) (sc Scenario) {
 			sc.IntOpts["delay"] = vgen.Pick(r, []int64{-1e9, 0, 1e6, 3600e9})
 		}
 		if r.Chance(1, 3) {
-			sc.IntOpts["export"] = vgen.Pick(r, []int64{-1e9, 0, 1, 3600e9})
+			sc.IntOpts["export"] = vgen.Pick(r, exportOptVals)
 		}
 	}
 	return sc
+}
+
+// deadlineTerm: (Some None) no deadline, (Some (Some ms)) milliseconds remaining at the first
+// non-empty export, None when no such export was seen.
+func deadlineTerm(res *Result) string {
+	if res.Deadline == nil {
+		return vgen.None
+	}
+	if !res.Deadline.Set {
+		return "(Some None)"
+	}
+	return vgen.Some(vgen.Some(vgen.Z(res.Deadline.RemainMs)))
 }
 
 func bspTerm(sc *Scenario, res *Result) (string, bool) {
@@ -818,15 +838,23 @@ func bspTerm(sc *Scenario, res *Result) (string, bool) {
 	if !d1 && !d2 && sc.Via != "nilexporter" { // the batch timer stays at its 5 s default: batches are cut by size only
 		beh = vgen.Some(vgen.Pair(vgen.Z(int64(res.MaxBatch)), vgen.Z(int64(res.Total))))
 	}
-	return vgen.App("CBsp", in, cfg, vgen.Z(int64(sc.N)), beh), res.BSP != nil && (res.BSP.Queue != 2048 || res.BSP.Batch != 512)
+	exported, dl := vgen.None, vgen.None
+	if sc.Via != "nilexporter" {
+		exported = vgen.Some(vgen.Z(int64(res.Total)))
+		dl = deadlineTerm(res)
+	}
+	return vgen.App("CBsp", in, cfg, vgen.Z(int64(sc.N)), beh, exported, dl), res.BSP != nil && (res.BSP.Queue != 2048 || res.BSP.Batch != 512)
 }
 
 // durations from the environment: out-of-range, the defaults themselves, and values whose
 // millisecond -> nanosecond conversion overflows int64
 var bspDelayVals = []string{"-1", "0", "abc", "1", "5000", "100000", "99999999999999999999", "9223372036854775807", "9223372036854775"}
-var bspExportVals = []string{"", "-1", "0", "abc", "1", "30000", "9223372036854775807", "9223372036854775"}
+var bspExportVals = []string{"", "-1", "0", "abc", "4000", "30000", "-30000", "99999999999999999999", "9223372036854775807", "9223372036854775"}
 var blrpDelayVals = []string{"-1", "0", "abc", "1", "1000", "99999999999999999999", "9223372036854775807", "9223372036854775"}
-var blrpExportVals = []string{"", "-1", "0", "abc", "1", "30000", "9223372036854775807", "9223372036854775"}
+var blrpExportVals = []string{"", "-1", "0", "abc", "4000", "30000", "-30000", "99999999999999999999", "9223372036854775807", "9223372036854775"}
+
+// WithExportTimeout values: negative, zero, the smallest negative, ordinary, the default, an hour
+var exportOptVals = []int64{-1e9, 0, -1, -9223372036854775808, 7e9, 30e9, 3600e9}
 
 var blrpEnvInts = []string{"", "", "-1", "0", "1", "5", "16", "30", "64", "512", "2048", "007", "abc", "99999999999999999999", "+7", " 5", "10000"}
 var blrpOptInts = []int64{-1, 0, 1, 5, 16, 30, 64, 512, 2048, 4096, -9223372036854775808}
@@ -842,7 +870,15 @@ func genBLRP(r *vgen.Rand) (Scenario, bool) {
 		sc.IntOpts["batch"] = vgen.Pick(r, blrpOptInts)
 	}
 	observed := true
-	if r.Chance(1, 6) { // out-of-range timing settings: exercised for liveness only
+	if r.Chance(1, 3) { // the export timeout on its own
+		if r.Bool() {
+			setIf(sc.Env, "OTEL_BLRP_EXPORT_TIMEOUT", vgen.Pick(r, blrpExportVals))
+		}
+		if r.Bool() {
+			sc.IntOpts["export"] = vgen.Pick(r, exportOptVals)
+		}
+	}
+	if r.Chance(1, 6) { // out-of-range interval / buffer settings: exports may also be cut by the timer
 		observed = false
 		setIf(sc.Env, "OTEL_BLRP_SCHEDULE_DELAY", vgen.Pick(r, blrpDelayVals))
 		setIf(sc.Env, "OTEL_BLRP_EXPORT_TIMEOUT", vgen.Pick(r, blrpExportVals))
@@ -850,7 +886,7 @@ func genBLRP(r *vgen.Rand) (Scenario, bool) {
 			sc.IntOpts["interval"] = vgen.Pick(r, []int64{-1e9, 0, 1, 1e6})
 		}
 		if r.Chance(1, 2) {
-			sc.IntOpts["export"] = vgen.Pick(r, []int64{-1e9, 0, 1})
+			sc.IntOpts["export"] = vgen.Pick(r, exportOptVals)
 		}
 		if r.Chance(1, 2) {
 			sc.IntOpts["buffer"] = vgen.Pick(r, []int64{-1, 0, 3})
@@ -867,14 +903,14 @@ func genBLRP(r *vgen.Rand) (Scenario, bool) {
 	return sc, observed
 }
 
-func blrpTerm(sc *Scenario, res *Result) string {
+func blrpTerm(sc *Scenario, res *Result, odd bool) string {
 	in := vgen.App("Build_blrp_in", vgen.HxS(sc.Env["OTEL_BLRP_MAX_QUEUE_SIZE"]), vgen.HxS(sc.Env["OTEL_BLRP_MAX_EXPORT_BATCH_SIZE"]),
-		optZ(sc.IntOpts, "queue"), optZ(sc.IntOpts, "batch"))
+		optZ(sc.IntOpts, "queue"), optZ(sc.IntOpts, "batch"), vgen.HxS(sc.Env["OTEL_BLRP_EXPORT_TIMEOUT"]), optZ(sc.IntOpts, "export"))
 	trig := vgen.None
 	if sc.Probe {
 		trig = vgen.Some(vgen.Bool(res.Triggered))
 	}
-	return vgen.App("CBlrp", in, vgen.Z(int64(sc.N)), vgen.Z(int64(res.MaxBatch)), vgen.Z(int64(res.Total)), trig)
+	return vgen.App("CBlrp", in, vgen.Z(int64(sc.N)), vgen.Z(int64(res.MaxBatch)), vgen.Z(int64(res.Total)), trig, vgen.Bool(odd), deadlineTerm(res))
 }
 
 var limitEnvNames = []string{"OTEL_SPAN_ATTRIBUTE_VALUE_LENGTH_LIMIT", "OTEL_ATTRIBUTE_VALUE_LENGTH_LIMIT", "OTEL_SPAN_ATTRIBUTE_COUNT_LIMIT", "OTEL_ATTRIBUTE_COUNT_LIMIT",
@@ -1128,7 +1164,7 @@ func main() {
 		}
 		bspEmit := func(sc *Scenario, res *Result) {
 			term, nontriv := bspTerm(sc, res)
-			w.Add(term, map[string]any{"component": "bsp", "via": sc.Via, "env": sc.Env, "options": sc.IntOpts, "spans": sc.N, "config": res.BSP, "max_batch": res.MaxBatch, "exported": res.Total}, "sdk-bsp", nontriv)
+			w.Add(term, map[string]any{"component": "bsp", "via": sc.Via, "env": sc.Env, "options": sc.IntOpts, "spans": sc.N, "config": res.BSP, "max_batch": res.MaxBatch, "exported": res.Total, "export_context_deadline": res.Deadline, "exports_refused_context_done": res.Refused}, "sdk-bsp", nontriv)
 			w.Tally("bsp:via=" + sc.Via)
 			if res.BSP == nil {
 				w.Tally("bsp:no-MarshalLog")
@@ -1185,16 +1221,32 @@ func main() {
 			addSDK(genBSP(r.Fork()), "sdk-bsp", bspEmit)
 		}
 		// batch log record processor: every out-of-range timing value once (liveness)
-		for _, name := range []string{"OTEL_BLRP_SCHEDULE_DELAY", "OTEL_BLRP_EXPORT_TIMEOUT"} {
-			for _, v := range blrpDelayVals {
-				via := ""
-				if len(v)%2 == 0 {
-					via = "nilexporter"
-				}
-				addSDK(Scenario{Kind: "blrp", N: 40, Via: via, Env: map[string]string{name: v}, IntOpts: map[string]int64{}}, "sdk-blrp", func(sc *Scenario, res *Result) {
+		blrpEmit := func(odd bool) func(sc *Scenario, res *Result) {
+			return func(sc *Scenario, res *Result) {
+				if sc.Via == "nilexporter" {
 					w.Tally("blrp:liveness-only")
-				})
+					return
+				}
+				if odd {
+					w.Tally("blrp:odd-interval(records-kept+deadline-only)")
+				}
+				w.Add(blrpTerm(sc, res, odd), map[string]any{"component": "blrp", "via": sc.Via, "env": sc.Env, "options": sc.IntOpts, "records": sc.N, "max_chunk": res.MaxBatch, "exported": res.Total,
+					"probe": sc.Probe, "triggered": res.Triggered, "export_context_deadline": res.Deadline, "exports_refused_context_done": res.Refused}, "sdk-blrp",
+					len(sc.Env) > 0 || len(sc.IntOpts) > 1)
 			}
+		}
+		for _, v := range blrpDelayVals {
+			addSDK(Scenario{Kind: "blrp", N: 40, Env: map[string]string{"OTEL_BLRP_SCHEDULE_DELAY": v}, IntOpts: map[string]int64{}}, "sdk-blrp", blrpEmit(true))
+			addSDK(Scenario{Kind: "blrp", N: 40, Via: "nilexporter", Env: map[string]string{"OTEL_BLRP_SCHEDULE_DELAY": v}, IntOpts: map[string]int64{}}, "sdk-blrp", blrpEmit(true))
+		}
+		// every export-timeout value from the environment and from the option, once each
+		for _, v := range blrpExportVals[1:] {
+			addSDK(Scenario{Kind: "blrp", N: 40, Env: map[string]string{"OTEL_BLRP_EXPORT_TIMEOUT": v}, IntOpts: map[string]int64{"interval": 3600e9}}, "sdk-blrp", blrpEmit(false))
+		}
+		for _, v := range exportOptVals {
+			addSDK(Scenario{Kind: "blrp", N: 40, Env: map[string]string{"OTEL_BLRP_EXPORT_TIMEOUT": "4000"}, IntOpts: map[string]int64{"interval": 3600e9, "export": v}}, "sdk-blrp", blrpEmit(false))
+			addSDK(Scenario{Kind: "bsp", N: 40, Env: map[string]string{"OTEL_BSP_EXPORT_TIMEOUT": "4000"}, IntOpts: map[string]int64{"export": v}}, "sdk-bsp", bspEmit)
+			addSDK(Scenario{Kind: "bsp", N: 40, Via: "provider", Env: map[string]string{}, IntOpts: map[string]int64{"export": v}}, "sdk-bsp", bspEmit)
 		}
 		for i, n := 0, o.Count(110, 1200); i < n; i++ {
 			sc, observed := genBLRP(r.Fork())
@@ -1236,14 +1288,7 @@ func main() {
 					sc.Env["OTEL_BLRP_MAX_EXPORT_BATCH_SIZE"] = "0"
 				}
 			}
-			addSDK(sc, "sdk-blrp", func(sc *Scenario, res *Result) {
-				if !observed {
-					w.Tally("blrp:liveness-only")
-					return
-				}
-				w.Add(blrpTerm(sc, res), map[string]any{"component": "blrp", "via": sc.Via, "env": sc.Env, "options": sc.IntOpts, "records": sc.N, "max_chunk": res.MaxBatch, "exported": res.Total, "probe": sc.Probe, "triggered": res.Triggered}, "sdk-blrp",
-					len(sc.Env) > 0 || len(sc.IntOpts) > 1)
-			})
+			addSDK(sc, "sdk-blrp", blrpEmit(!observed))
 		}
 		limitsEmit := func(sc *Scenario, res *Result) {
 			if len(res.EnvLimits) == 6 {
